@@ -161,7 +161,9 @@ func (this *ItemSet) dependentsClosure(items ItemList) ItemList {
 	// fmt.Printf("dependentsClosure S%d, %s\n", this.setNo, items)
 	for i := 0; i < len(items); i++ {
 		for _, thisItem := range this.Items {
-			if expSym := thisItem.ExpectedSymbol(); expSym != nil && expSym.String() == items[i].Id {
+			// Only a reference to a regular definition waits for a production: the printed
+			// form of a character literal can equal the id of a string literal's production.
+			if expSym, isRegDefId := thisItem.ExpectedSymbol().(*ast.LexRegDefId); isRegDefId && expSym.Id == items[i].Id {
 				if items[i].Reduce() {
 					// mv := thisItem.MoveRegDefId(items[i].Id)
 					// for _, mvi := range mv {
